@@ -103,6 +103,7 @@ class Interp(object):
         self.symbolic = True       # unrecognised `name = <pure expr>` is kept as a symbolic binding and substituted on use
         self.helpers = default_helpers(fn)   # callable(call) -> FunctionDef of a newly introduced helper to interpret in place
         self.depth = 0
+        self.key_equals = None     # optional callable(key expr, constant key node, state) -> bool | None: decides {..}[K] / {..}.get(K)
         self.pure_calls = set()    # names of calls the rule declares free of effects (kept symbolically)
 
     # -- symbolic locals -------------------------------------------------------
@@ -111,12 +112,33 @@ class Interp(object):
         if not senv or not any(isinstance(n, ast.Name) and n.id in senv for n in ast.walk(node)):
             return node
         new = normal._Subst(dict(senv)).visit(normal.clone(node))
+        if self.key_equals is not None:
+            new = self._fold_lookups(new, state)
         for n in ast.walk(new):
             if not hasattr(n, 'lineno') and isinstance(n, (ast.expr, ast.stmt)):
                 ast.copy_location(n, node)
             if hasattr(node, '_module'):
                 n._module = node._module
         return new
+
+    def _fold_lookups(self, node, state):
+        me = self
+
+        class F(ast.NodeTransformer):
+            def generic_visit(s2, n):
+                n = super(F, s2).generic_visit(n)
+                if isinstance(n, (ast.Subscript, ast.Call)):
+                    found, sel = dict_lookup(n, lambda k, kn: me.key_equals(k, kn, state))
+                    if found and sel is not None:
+                        return sel
+                if isinstance(n, ast.Compare) and len(n.ops) == 1 and isinstance(n.ops[0], (ast.In, ast.NotIn)) and \
+                        isinstance(n.comparators[0], ast.Dict) and all(k is not None for k in n.comparators[0].keys):
+                    hits = [me.key_equals(n.left, kn, state) for kn in n.comparators[0].keys]
+                    if all(h is not None for h in hits):
+                        val = any(hits) if isinstance(n.ops[0], ast.In) else not any(hits)
+                        return ast.copy_location(ast.Constant(value=val), n)
+                return n
+        return F().visit(node)
 
     def kill(self, names, state):
         senv = state.get('senv')
@@ -192,6 +214,8 @@ class Interp(object):
             return not self.cond(node.operand, state, trace)
         if isinstance(node, ast.Constant) and isinstance(node.value, bool):
             return node.value
+        if isinstance(node, ast.Constant) and (node.value is None or isinstance(node.value, (str, int, float))):
+            return bool(node.value)
         if isinstance(node, ast.Compare) and len(node.ops) > 1:
             # a < b < c  ->  a < b and b < c
             left = node.left
@@ -247,6 +271,12 @@ class Interp(object):
         if not looks_boolean:
             return False
         v = self.cond(value, state, trace)
+        if state.get('senv') and name in state['senv']:
+            if op is not None:
+                # flag |= test on a symbolically bound flag: its current truth value first
+                prev = self.cond(ast.copy_location(ast.Name(id=name, ctx=ast.Load()), st), state, trace)
+                state.setdefault('bvars', {})[name] = prev
+            state['senv'].pop(name, None)
         bv = state.setdefault('bvars', {})
         if op is None:
             bv[name] = v
@@ -255,6 +285,13 @@ class Interp(object):
         else:
             bv[name] = bv.get(name, False) and v
         return True
+
+    def _looks_boolean_assign(self, st):
+        '''flag = <test> and <test>: a truth value, not a choice between operands'''
+        return all(isinstance(v, (ast.Compare, ast.BoolOp)) or (isinstance(v, ast.UnaryOp) and isinstance(v.op, ast.Not)) or
+                   (isinstance(v, ast.Constant) and isinstance(v.value, bool)) or
+                   (isinstance(v, ast.Call) and isinstance(v.func, ast.Name) and v.func.id in ('bool', 'isinstance', 'hasattr'))
+                   for v in st.value.values)
 
     def _effect(self, st, state, trace):
         if self._bool_assign(st, state, trace):
@@ -452,6 +489,18 @@ class Interp(object):
             raise _Break()
         if isinstance(st, ast.Continue):
             raise _Continue()
+        if isinstance(st, ast.Assign) and len(st.targets) == 1 and isinstance(st.targets[0], ast.Name):
+            if isinstance(st.value, ast.Name) and st.value.id == st.targets[0].id:
+                return
+            if isinstance(st.value, ast.BoolOp) and not self._looks_boolean_assign(st):
+                # x = a or b  /  x = a and b : the operand that decides the value is the one assigned
+                chosen = st.value.values[-1]
+                for v in st.value.values[:-1]:
+                    t = self.cond(v, state, trace)
+                    if t == isinstance(st.value.op, ast.Or):
+                        chosen = v
+                        break
+                return self.stmt(ast.copy_location(ast.Assign(targets=st.targets, value=chosen), st), state, trace)
         if self._effect(st, state, trace):
             return
         if self._symbolic_assign(st, state, trace):
